@@ -1007,4 +1007,141 @@ theorem GInv.quiet {s : State} (G : GInv s) (hq : s.stack = []) {a : Nat} {r : C
     obtain ⟨p, h1, h2⟩ := G.c.r.reg a r i rid hr hi
     exact ⟨i, p, h1, h2⟩
 
+/-! ### a collector keeps its inputs, its kind and the promise it returned -/
+
+def CExt (s s' : State) : Prop :=
+  ∀ (a : Nat) (r : Coll), s.colls[a]? = some r →
+    ∃ r', s'.colls[a]? = some r' ∧ r'.mode = r.mode ∧ r'.subs = r.subs ∧ r'.target = r.target
+
+theorem CExt.refl (s : State) : CExt s s := fun _ r h => ⟨r, h, rfl, rfl, rfl⟩
+theorem CExt.trans {a b c : State} (h1 : CExt a b) (h2 : CExt b c) : CExt a c := by
+  intro i r h
+  obtain ⟨r1, e1, m1, s1, t1⟩ := h1 i r h
+  obtain ⟨r2, e2, m2, s2, t2⟩ := h2 i r1 e1
+  exact ⟨r2, e2, m2.trans m1, s2.trans s1, t2.trans t1⟩
+theorem CExt.of_eq {s s' : State} (h : s'.colls = s.colls) : CExt s s' := fun _ r hr => ⟨r, h ▸ hr, rfl, rfl, rfl⟩
+theorem CExt.after {a b c : State} (h2 : CExt b c) (h : b.colls = a.colls) : CExt a c := (CExt.of_eq h).trans h2
+
+theorem CExt_set {s : State} {a r r'} (h : s.colls[a]? = some r) (hm : r'.mode = r.mode) (hs : r'.subs = r.subs)
+    (ht : r'.target = r.target) : CExt s { s with colls := s.colls.set a r' } := by
+  have hlt : a < s.colls.length := (List.getElem?_eq_some_iff.mp h).1
+  intro a' x hx
+  by_cases ha : a' = a
+  · subst ha; rw [h] at hx; cases hx
+    exact ⟨r', (set_lookup _ _ _ hlt _ _).mpr (.inl ⟨rfl, rfl⟩), hm, hs, ht⟩
+  · exact ⟨x, (set_lookup _ _ _ hlt _ _).mpr (.inr ⟨ha, hx⟩), rfl, rfl, rfl⟩
+
+theorem CExt_settle (b q v) (s : State) : CExt s (settle b q v s) := CExt.of_eq (settle_colls ..)
+theorem CExt_thenOp (p r j) (s : State) : CExt s (thenOp p r j s) := CExt.of_eq (thenOp_colls ..)
+
+theorem CExt_finish (r q) (s : State) : CExt s (finish r q s) := by
+  unfold finish; split
+  · exact (CExt_thenOp _ _ _ _).after rfl
+  · exact CExt_settle _ _ _ _
+
+theorem CExt_note (a) (s : State) : CExt s (note a s) := by
+  unfold note; split
+  · exact CExt.refl s
+  · next r h => exact CExt_set h rfl rfl rfl
+
+theorem CExt_callFn (f q v) (s : State) : CExt s (callFn f q v s) := by
+  unfold callFn
+  split
+  · exact CExt.of_eq rfl
+  · exact (CExt_settle _ _ _ _).after rfl
+  · exact (CExt_settle _ _ _ _).after rfl
+  · split
+    · exact CExt.refl s
+    · next r h =>
+      dsimp only
+      split
+      · exact (CExt_set (r' := { r with results := r.results.set _ v, numDone := r.numDone + 1 }) h rfl rfl rfl).trans ((CExt_settle _ _ _ _).after rfl)
+      · exact (CExt_set (r' := { r with results := r.results.set _ v, numDone := r.numDone + 1 }) h rfl rfl rfl).trans (CExt.of_eq rfl)
+  · split
+    · exact CExt.refl s
+    · exact (CExt_settle _ _ _ _).after rfl
+  · split
+    · exact CExt.refl s
+    · next r h =>
+      dsimp only
+      split
+      · exact (CExt_set (r' := { r with numDone := r.numDone + 1 }) h rfl rfl rfl).trans ((CExt_settle _ _ _ _).after rfl)
+      · exact (CExt_set (r' := { r with numDone := r.numDone + 1 }) h rfl rfl rfl).trans (CExt.of_eq rfl)
+
+theorem CExt_invoke (c v) (s : State) : CExt s (invoke c v s) := by
+  unfold invoke invokeBody
+  split
+  · exact (CExt_settle _ _ _ _).after rfl
+  · exact (CExt_callFn _ _ _ _).after rfl
+
+theorem CExt_collect (m ps) (s : State) : CExt s (collect m ps s) := by
+  have h1 : CExt s (withColl m ps s) := by
+    intro a r h
+    exact ⟨r, (getElem?_snoc_eq_some _ _ _ _).mpr (.inl h), rfl, rfl, rfl⟩
+  rw [collect_eq]
+  split
+  · split
+    · exact h1.trans (CExt_settle _ _ _ _)
+    · exact h1.trans (CExt.of_eq rfl)
+  · exact CExt.of_eq rfl
+
+theorem CExt_act (arg a) (s : State) : CExt s (act arg a s) := by
+  unfold act
+  split
+  · exact CExt_thenOp _ _ _ _
+  · split
+    · exact (CExt_settle _ _ _ _).after rfl
+    · exact CExt.of_eq rfl
+  · split
+    · exact (CExt_settle _ _ _ _).after rfl
+    · exact CExt.of_eq rfl
+  · exact CExt.of_eq rfl
+  · exact CExt.of_eq rfl
+  · exact CExt_collect _ _ _
+  · exact CExt_collect _ _ _
+
+theorem CExt_kont (arg k) (s : State) : CExt s (kont arg k s) := by
+  unfold kont
+  split
+  · exact CExt.refl s
+  · exact CExt_finish _ _ _
+  · exact CExt_finish _ _ _
+  · exact CExt_settle _ _ _ _
+  · exact CExt_settle _ _ _ _
+  · exact CExt.refl s
+
+theorem CExt_step {s s' : State} (h : step s = some s') : CExt s s' := by
+  unfold step at h
+  split at h
+  · simp at h
+  · next f rest hst =>
+    have pop : CExt s { s with stack := rest } := CExt.of_eq rfl
+    dsimp only at h
+    split at h <;> simp only [Option.some.injEq] at h <;> subst h
+    · exact pop
+    · exact pop.trans ((CExt_invoke _ _ _).after rfl)
+    · exact pop.trans (CExt_finish _ _ _)
+    · exact pop.trans (CExt_kont _ _ _)
+    · exact pop.trans ((CExt_act _ _ _).after rfl)
+    · exact pop
+    · exact pop.trans ((CExt_note _ _).trans ((CExt_thenOp _ _ _ _).after rfl))
+
+theorem Evolves.cext {s s' : State} (h : Evolves s s') : CExt s s' := by
+  induction h with
+  | refl => exact CExt.refl _
+  | step _ hs ih => exact ih.trans (CExt_step hs)
+  | op arg a _ ih => exact ih.trans (CExt_act arg a _)
+
+/-- what `Promise.all(ps)` / `wait_promises(ps)` creates -/
+theorem collect_creates {m ps} {s : State} (h : refsOk ps s = true) :
+    ∃ r, (collect m ps s).colls[s.colls.length]? = some r ∧ r.mode = m ∧ r.subs = ps ∧ r.target = s.heap.length ∧
+      (collect m ps s).heap.length = s.heap.length + 1 := by
+  rw [collect_eq, if_pos h]
+  split
+  · refine ⟨newColl m ps s, ?_, rfl, rfl, rfl, ?_⟩
+    · rw [settle_colls]; simp [withColl]
+    · rw [settle_heap_length]; simp [withColl, newProm]
+  · exact ⟨newColl m ps s, by simp [withColl, push], rfl, rfl, rfl, by simp [withColl, newProm, push]⟩
+
+
 end RedunModel.Promise
